@@ -21,7 +21,7 @@ import tempfile
 from pathlib import Path
 
 from . import gen, sim, tlc
-from .common import MachineryFailure, Result, bind_repo, seed
+from .common import Guard, MachineryFailure, Result, bind_repo, seed
 
 META = re.compile(r'Simulation Date|Simulation Time|Calculation Time|GEOPHIRES Version|Run Date|Run Time|Simulation Metadata|^\s*Calculation')
 
@@ -180,8 +180,11 @@ def replay_m2(res: Result, files: list):
             with open(path, 'w', newline='') as fh:  # keep CRLF as written
                 fh.write(''.join(f['file']))
             got = {}
-            read_input_file(got, input_file_name=path)
-            got = {k: v.sValue for k, v in got.items()}
+            with Guard() as gd:
+                read_input_file(got, input_file_name=path)
+                got = {k: v.sValue for k, v in got.items()}
+            if gd.err:
+                got = {'<raised>': gd.err}
             want = f['dict'] if isinstance(f['dict'], dict) else {}
             res.count('m2_files_replayed')
             if got != want:
@@ -240,6 +243,13 @@ def run(tier: str) -> int:
         implicit = '\n'.join(ln for ln in ex['example1_addons'].splitlines() if not ln.strip().startswith('Do AddOn Calculations'))
         bases.append(('implicit:addons+sdacgt', last_wins(implicit + '\nDo S-DAC-GT Calculations, True\nS-DAC-GT CAPEX, 1400\nS-DAC-GT OPEX, 60\nS-DAC-GT CAPEX Multiplier, 1.1\n')))
         bases.append(('implicit:addons', last_wins(implicit + '\n')))
+    # two parameters whose reading interferes (aliases, one writing the other: discovered through the real reader, see C08) given
+    # conflicting values: which of them governs is fixed by the program, not by where the two lines stand
+    from .c07 import FAMILIES as C07_FAMILIES
+    from .c08 import cross_pairs
+    xb = [(f, ex[n]) for f, n in C07_FAMILIES.items() if n in ex and f in ('standard', 'addons', 'district_heating', 'heatpump', 'overpressure', 'fervo')]
+    for q in [x for x in cross_pairs(xb, 60) if x['writes'] and x['family'] in ('fervo', 'standard')][: (6 if tier == 'quick' else 24)]:
+        bases.append((f"interfering:{q['family']}:{q['a']}+{q['b']}", last_wins(q['text'])))
     # list-style parameters (`Gradients, g1, g2, ...`, `Thicknesses, ...`) are parsed from the raw line, not from the value field
     for k in range(3 if tier == 'quick' else 12):
         p = gen.base(rng, 4, 1, rng.choice([1, 2]), rng.choice([1, 2, 3]))
@@ -264,9 +274,18 @@ def run(tier: str) -> int:
             vt = f'{tag}|{st}' if f'{tag}|{st}' not in groups[tag] else f'{tag}|{st}2'
             jobs.append((vt, render(params, rng, st)))
             groups[tag].append(vt)
-        for k in range(nperm if not tag.startswith(('implicit:', 'liststyle+')) else max(nperm, 8)):
+        for k in range(nperm if not tag.startswith(('implicit:', 'liststyle+', 'interfering:')) else max(nperm, 8)):
             jobs.append((f'{tag}|perm{k}', render(permute(params, rng), rng, rng.choice(['plain', 'decorate', 'duplicate']))))
             groups[tag].append(f'{tag}|perm{k}')
+        if tag.startswith('interfering:'):      # the two lines swapped, everything else in place
+            a_, b_ = tag.split(':', 2)[2].split('+')
+            ia = next((i for i, x in enumerate(params) if x[0] == a_), None)
+            ib = next((i for i, x in enumerate(params) if x[0] == b_), None)
+            if ia is not None and ib is not None:
+                sw = list(params)
+                sw[ia], sw[ib] = sw[ib], sw[ia]
+                jobs.append((f'{tag}|swapped', render(sw, rng, 'plain')))
+                groups[tag].append(f'{tag}|swapped')
         if tag.startswith('implicit:'):      # the optional-module lines first, then everything else
             front = [x for x in params if x[0].startswith(('S-DAC-GT', 'Do S-DAC-GT'))]
             jobs.append((f'{tag}|modules_first', render(front + [x for x in params if x not in front], rng, 'plain')))
